@@ -754,11 +754,34 @@ func TestVerifC44Responder(t *testing.T) {
 					lastHandshakeTime: hsTime,
 					relayState:        RelayState{relayForByAddr: map[netip.Addr]*Relay{}, relayForByIdx: map[uint32]*Relay{}},
 				}
+				// a quarter of the handshakes are ones the node must refuse: the drawn local index is already taken by a live
+				// tunnel, or the handshake is older than the tunnel already held for that address, or it is a replay of the
+				// very packet that made a live tunnel. A refused handshake is not a completed handshake.
+				forcedPath := -1
+				if len(live) > 0 && rng.IntN(3) == 0 {
+					o := live[rng.IntN(len(live))]
+					var same []*c44Peer // live tunnels filed under this certificate's first address
+					for _, x := range live {
+						if x.hi.vpnAddrs[0] == p.addrs[0] {
+							same = append(same, x)
+						}
+					}
+					switch k := rng.IntN(3); {
+					case k == 1 && len(same) > 0:
+						hi.lastHandshakeTime = 0
+					case k == 2 && len(same) > 0:
+						hi.HandshakePacket = map[uint8][]byte{0: same[rng.IntN(len(same))].hi.HandshakePacket[0]}
+					default:
+						hi.localIndexId = o.hi.localIndexId
+					}
+					forcedPath = 0
+					r.Count("handshakes_built_to_be_refused", 1)
+				}
 				completed := false
 				path := "responder"
 				r.Pre("history %d ops %v + handshake %q", h, log, p.name)
 				if r.Guard("C44/panic", func() any { return replay(nil) }, func() {
-					if rng.IntN(2) == 0 {
+					if forcedPath == 0 || rng.IntN(2) == 0 {
 						_, err := hsm.CheckAndComplete(hi, 0, ifce)
 						completed = err == nil
 					} else {
